@@ -47,6 +47,10 @@ func main() {
 				for _, m := range []string{"fail", "lost"} {
 					tuples = append(tuples, tuple{sc, rpc, m})
 				}
+				if rpc == "Import" || rpc == "RequestToJoin" || rpc == "RequestToLeave" {
+					// the fault persists through every retry: the attempt gives up for good
+					tuples = append(tuples, tuple{sc, rpc, "always"})
+				}
 			}
 		}
 		reps := 1
@@ -133,7 +137,14 @@ func oneCase(run *hlib.Run, rng *hlib.Rng, tp tuple) {
 	reached := false
 	if tp.rpc != "none" {
 		r.Fault = func(target uint64, method string) int {
-			if reached || method != tp.rpc {
+			if method != tp.rpc {
+				return 0
+			}
+			if tp.mode == "always" {
+				reached = true
+				return 1
+			}
+			if reached {
 				return 0
 			}
 			reached = true
